@@ -4,6 +4,7 @@ import (
 	"bytes"
 	"fmt"
 	"math/rand/v2"
+	"reflect"
 	"sort"
 	"strings"
 	"time"
@@ -86,6 +87,14 @@ var unmarshalTexts = []string{
 	`{"N":"7","T":"2000-01-01T00:00:00Z"}`,
 	`{"X":{"k":"\ud800"},"B":"aGk="}`,
 	`[1,2]`,
+	// what only the lenient v1 parsers accept
+	`{"T":"2000-01-01T1:02:03Z"}`,
+	`{"T":"2000-01-01T01:02:03,5Z"}`,
+	`{"T":"2000-01-01T01:02:03+24:00"}`,
+	`{"B":"aGk=\n"}`,
+	`{"B":"aG k="}`,
+	`{"N":"12"}`,
+	`{"name":null,"Arr":[]}`,
 }
 
 func result(b []byte, err error) []any { return []any{err == nil, ints(b)} }
@@ -222,6 +231,10 @@ func optExec(c *optCase) {
 			c.Results = append(c.Results, []any{e1 == nil, ints([]byte(fmt.Sprintf("%v", t1)))}, []any{e2 == nil, ints([]byte(fmt.Sprintf("%v", t2)))})
 		case "cancel":
 			c.Results = append(c.Results, runOp("marshal", c.ProbeID, nil), runOp("marshal", c.ProbeID, optionsOf(append(append([]setter{}, c.Seq...), setter{K: "v2"}))))
+			// the same for unmarshaling: with every v1 option cancelled the result is that of no options
+			if a, b := runOp("unmarshal", c.ProbeID, nil), runOp("unmarshal", c.ProbeID, optionsOf(append(append([]setter{}, c.Seq...), setter{K: "v2"}))); !reflect.DeepEqual(a, b) {
+				c.Results = [][]any{a, b}
+			}
 		}
 	case "scoped":
 		if c.Coder == "encoder" {
